@@ -21,6 +21,7 @@ import (
 	"sort"
 	"strings"
 	"sync"
+	"sync/atomic"
 	"time"
 
 	gproto "google.golang.org/protobuf/proto"
@@ -38,15 +39,25 @@ import (
 	"verifharness/hx"
 )
 
-// "did not happen" bound: never reached on the unchanged tree. Once it has been reached (so the run already
-// carries a violation) later waits are cut short, so that a broken tree is reported in minutes, not hours.
-var waitFor = 2 * time.Second
+// TIMING. Every wait of this engine is on an event that MUST happen on a tree where the property holds (a Deploy call
+// arriving, the task queue reaching a status, a snapshot being published, a request returning or parking at a hook); the
+// loops below poll or block until the event itself, and `waitFor` is only the verdict "this system is wedged": 60 s, far
+// above anything machine load can cause and below hx's 180 s no-progress detector. No observation is an absence
+// established by waiting: absences are read after an event ordered behind the possible one (see the comments at each
+// site). Once the bound HAS expired (the tree is broken: the run already carries a violation with a concrete input) later
+// waits are cut to 2 s so that a broken tree is reported in minutes; on a healthy tree that never happens.
+var waitFor = 60 * time.Second
 
 func timedOut() {
-	if waitFor > 100*time.Millisecond {
-		waitFor = 100 * time.Millisecond
+	if waitFor > 2*time.Second {
+		waitFor = 2 * time.Second
 	}
 }
+
+// cleanupWait bounds waits that happen after the last observation of a case (pacing only: leaving early leaves
+// goroutines that touch nothing but this case's own in-memory objects)
+const cleanupWait = 2 * time.Second
+
 const keyGroups = 8
 
 type eng struct{}
@@ -87,6 +98,7 @@ type memLoc struct {
 	holdNext bool
 	held     chan struct{} // non-nil while a write is held; closed to release it
 	heldSig  chan struct{} // signalled when a write starts being held
+	snapWrites int         // job-snapshot writes that ENTERED Write (each is followed by exactly one "store wrote" record)
 }
 
 func newMemLoc() *memLoc {
@@ -127,6 +139,7 @@ func (m *memLoc) Write(path string, data io.Reader) (string, error) {
 	}
 	if strings.HasSuffix(path, ".snapshot") {
 		m.mu.Lock()
+		m.snapWrites++
 		var gate chan struct{}
 		if m.holdNext && m.held == nil {
 			m.holdNext = false
@@ -360,6 +373,7 @@ type harness struct {
 	prevOps       []string // members of the assembly before that one
 	prevSrs       []string
 	heldCk        uint64 // id of the checkpoint whose snapshot write is held (0 none)
+	logBase       int64  // storeWroteCount when this case began
 	lastCk        uint64          // last checkpoint id started
 	known         map[string]bool // nodes the harness registered and neither deregistered nor killed
 }
@@ -402,7 +416,9 @@ type depRec struct {
 	Peers bool     `json:"peers"`
 }
 
-// waitDeploy collects the Deploy calls of one `start` (2*wc expected).
+// waitDeploy collects the Deploy calls of one `start` (2*wc expected). It blocks until all of them have ARRIVED (every fake
+// Deploy signals its arrival and then parks at the gate); the deadline is the wedged-system verdict only. Fewer calls than
+// expected can only be "observed" by that verdict (a broken tree), never on a loaded healthy one.
 func (h *harness) waitDeploy() depRec {
 	deadline := time.After(waitFor)
 	for {
@@ -529,7 +545,7 @@ type step struct {
 
 func newHarness(wc int, deadlineMs int) (*harness, error) {
 	slog.SetDefault(slog.New(sigHandler{}))
-	h := &harness{wc: wc, clock: &stopClock{FrozenClock: clocks.NewFrozenClock()}, loc: newMemLoc(), arrived: make(chan struct{}, 4096),
+	h := &harness{wc: wc, logBase: storeWroteCount.Load(), clock: &stopClock{FrozenClock: clocks.NewFrozenClock()}, loc: newMemLoc(), arrived: make(chan struct{}, 4096),
 		gate: &gate{ch: make(chan struct{})}, known: map[string]bool{}}
 	cfg := &config.Config{WorkerCount: wc, KeyGroupCount: keyGroups, WorkingStorageLocation: "mem://w",
 		Sources: []connectors.SourceConfig{&fakeSource{h: h}}}
@@ -635,7 +651,10 @@ func (h *harness) fin(ok bool, who int) step {
 		h.mu.Unlock()
 		h.release(fail)
 		h.pendingDeploy = false
-		// wait for the outcome: Running/Paused, or a new deployment after a failure
+		// poll until the outcome itself: the queued "running" / "failed" task has run (status left Starting), or the Deploy
+		// calls of a new start have begun to arrive; no observation is made before that (deadline = wedged verdict only).
+		// split (did the splitter start, from which checkpoint) is read afterwards: SourceSplitter.Start is called by the
+		// start goroutine BEFORE it queues the "running" task, so it is ordered before the status change.
 		deadline := time.Now().Add(waitFor)
 		for {
 			h.job.VerifSync()
@@ -650,7 +669,7 @@ func (h *harness) fin(ok bool, who int) step {
 			if st != "Starting" || na > 0 {
 				break
 			}
-			time.Sleep(20 * time.Microsecond)
+			time.Sleep(20 * time.Microsecond) // pacing
 		}
 		h.mu.Lock()
 		if len(h.splitStarts) > before {
@@ -729,12 +748,15 @@ func (h *harness) savepoint() step {
 // storeWrote is signalled by the slog handler when the store logs that it finished the state update that follows a
 // snapshot file write (a synchronisation signal only: nothing is compared with it; without it the wait times out)
 var storeWrote = make(chan struct{}, 64)
+var storeWroteCount atomic.Int64 // number of such records so far in this process
+var storeWroteBroken atomic.Bool // the record did not come within waitFor once: stop relying on it
 
 type sigHandler struct{ slog.Handler }
 
 func (sigHandler) Enabled(context.Context, slog.Level) bool { return true }
 func (sigHandler) Handle(_ context.Context, r slog.Record) error {
 	if r.Message == "store wrote checkpoint" {
+		storeWroteCount.Add(1)
 		select {
 		case storeWrote <- struct{}{}:
 		default:
@@ -745,19 +767,43 @@ func (sigHandler) Handle(_ context.Context, r slog.Record) error {
 func (s sigHandler) WithAttrs([]slog.Attr) slog.Handler { return s }
 func (s sigHandler) WithGroup(string) slog.Handler      { return s }
 
+// publicationsSettled waits until every snapshot write this case's store has STARTED has been followed by the store's
+// "store wrote checkpoint" record, i.e. until every finishSnapshotAsync goroutine is past its state update. Counting
+// (records == writes entered) instead of waiting for "a" record matters: the record of an EARLIER publication may still
+// be outstanding (it is emitted after the state lock is released) and must not be mistaken for the one awaited.
+func (h *harness) publicationsSettled() {
+	if storeWroteBroken.Load() {
+		return
+	}
+	deadline := time.Now().Add(waitFor)
+	for {
+		h.loc.mu.Lock()
+		entered := h.loc.snapWrites
+		h.loc.mu.Unlock()
+		if storeWroteCount.Load()-h.logBase >= int64(entered) {
+			return
+		}
+		if time.Now().After(deadline) { // the record's text changed, or the store is wedged
+			storeWroteBroken.Store(true)
+			timedOut()
+			return
+		}
+		select { // pacing only
+		case <-storeWrote:
+		case <-time.After(100 * time.Microsecond):
+		}
+	}
+}
+
 func (h *harness) releaseWrite() step {
 	o := obs{}
-	for len(storeWrote) > 0 {
-		<-storeWrote
-	}
 	ck := h.heldCk
 	if h.loc.releaseHeld() {
 		h.heldCk = 0
-		select {
-		case <-storeWrote:
-		case <-time.After(waitFor):
-			timedOut()
-		}
+		// the released write returns, then finishSnapshotAsync updates the store's state, then logs: the observation
+		// below (did it become current?) is read after that record, hence after the state update - also when the
+		// answer is "no" (superseded), which is therefore not an absence established by waiting
+		h.publicationsSettled()
 		if ck != 0 && h.loc.snapshot(ck) != nil && h.job.VerifCurrentCheckpointID() == ck {
 			o.Published = ck
 		}
@@ -798,7 +844,10 @@ func (h *harness) ack(who, id string, ck uint64) (s step) {
 	h.mu.Unlock()
 	heldWrite := false
 	if finishing && o.Res != 2 {
-		// a publication was started: wait for the snapshot file and for it to become the current checkpoint
+		// a publication was started (the splitter's Checkpoint() is called synchronously inside the ack that completes the
+		// snapshot, so "no publication started" is known when the ack returns). Poll until one of the two events that
+		// must follow: the file is written AND the checkpoint is current, or the storage holds the file write. The
+		// deadline is the wedged verdict only; the 50 us timer paces the poll.
 		deadline := time.Now().Add(waitFor)
 		for time.Now().Before(deadline) {
 			if h.loc.snapshot(ck) != nil && h.job.VerifCurrentCheckpointID() == ck {
@@ -930,18 +979,21 @@ func (h *harness) run(ops []jop) []step {
 			}
 		}
 	}
+	// after the last observation: let a held write and a gated deployment finish so that no goroutine of this case
+	// stays parked, and let every publication goroutine get past its log record so that the per-process record counter
+	// is exact for the next case
 	h.loc.releaseHeld()
-	// let a gated deployment finish so that no goroutine of this case stays parked
+	h.publicationsSettled()
 	for i := 0; i < 4 && h.pendingDeploy; i++ {
 		h.release(nil)
 		h.pendingDeploy = false
-		deadline := time.Now().Add(waitFor)
+		deadline := time.Now().Add(cleanupWait)
 		for time.Now().Before(deadline) {
 			h.job.VerifSync()
 			if h.job.VerifStatus() != "Starting" {
 				break
 			}
-			time.Sleep(20 * time.Microsecond)
+			time.Sleep(20 * time.Microsecond) // pacing
 		}
 		h.settle()
 	}
